@@ -66,7 +66,7 @@ CLAIMED = {
          'Decides the listed error-discipline and arity clauses; does not decide inverse-ness or route equality of values.',
          'DESIGN.md §4 C17'),
  'C12': ('pairing rule over selector call sites (path node generated from the index/name that fetches the value); call-graph identity of json_query with compile+evaluate; clamped slice steps',
-         'Static pairing rule: at every tail_select/evaluate_tail call of every selector the path node is generated from the same index or name that fetches the child passed with it; json_query/json_replace go through make_expression + evaluate; slice loops clamp the step. Necessary conditions of "each returned path addresses the value returned with it" and of compiled/one-shot agreement, at all selector sites. Also: the slice step clamp preserves the selection (linear forms over interval boxes, R12.3), json_replace overloads agree on their result options (R12.4), the slice accumulator is reset after use (R12.5), cursor-bounds and state-stack typestates of the compiler (R05.6/R05.7). Filter operator table: operator, operand order, type guards and precedence order of the comparison/arithmetic classes (R12.6). Selector ids are consumed (R12.7); slice bound functions agree with their JMESPath siblings (R12.8).',
+         'Static pairing rule: at every tail_select/evaluate_tail call of every selector the path node is generated from the same index or name that fetches the child passed with it; json_query/json_replace go through make_expression + evaluate; slice loops clamp the step. Necessary conditions of "each returned path addresses the value returned with it" and of compiled/one-shot agreement, at all selector sites. Also: the slice step clamp preserves the selection (linear forms over interval boxes, R12.3), json_replace overloads agree on their result options (R12.4), the slice accumulator is reset after use (R12.5), cursor-bounds and state-stack typestates of the compiler (R05.6/R05.7). Filter operator table: operator, operand order, type guards and precedence order of the comparison/arithmetic classes (R12.6). Selector ids are consumed (R12.7); slice bound functions agree with their JMESPath siblings (R12.8). Per-node callbacks do not consume captured values (R12.9); normalized-path escape agreement writer vs json_location parser (R12.10); shunting-yard pop condition truth table (R12.11); integer division guarded (R05.10).',
          'Decides the listed structural clauses; does not decide that the selected node list is the one the selector semantics define.',
          'DESIGN.md §4 C12'),
  'C13': ('registry table extraction (name -> object -> class -> arity) compared with the specification table; argument typestate over the CFG; dominance of the step-zero test; type-level const facts from Sema',
